@@ -94,6 +94,22 @@ def run_newer_names(tier, funcs, index, enums, res):
     res["bounds"] = "words %r: -newer / -anewer / -cnewer / -newerXY select (m,m) / (a,m) / (c,m) / (X,Y); near-misses select nothing" % c11.NEWER_WORDS
 
 
+def run_time_kinds(tier, funcs, index, enums, res):
+    import c11_operands as c11
+    r = c11.explore_time_kinds(funcs, index, enums)
+    res["functions_executed"].update(r.pop("functions_executed"))
+    for v in r.pop("violations"):
+        res["violations"].append({"key": "time kind | " + v["what"].split(" ")[0], "summary": v["what"], "replayer": "newer_xy", "what": v["what"]})
+    for k, c in r.pop("unsupported").items():
+        res["unsupported"][k] = res["unsupported"].get(k, 0) + c
+    r["bound"] = "time primaries -> timestamp kind, %d words" % len(c11.TIME_WORDS)
+    r["inputs_covered"] = r.pop("checks")
+    res["runs"].append(r)
+    res["target"] += ("; build_top_level_matcher on `WORD OPERAND` for the time primaries: FileTimeMatcher::new / FileAgeRangeMatcher::new from MIR (the timestamp kind is read off the matcher "
+                      "the parser built), NewerOptionMatcher::new / NewerMatcher::new as recorders of the (X, Y, file) they are handed")
+    res["bounds"] += "; time primaries %r: each is built on its own timestamp (a: access, c: status change, m: modification) / hands exactly the (X, Y) its name spells to the matcher" % c11.TIME_WORDS
+
+
 def run_wiring(tier, funcs, index, enums, res):
     import c06_wiring
     r = c06_wiring.explore(funcs, index, enums)
@@ -613,6 +629,7 @@ def main():
         res["bounds"] += "; -sorted: every ordered pair of the names %r is ordered byte-wise" % c02_walk.SORT_NAMES
     elif prop == "C15":
         run_newer_names(tier, funcs, index, enums, res)
+        run_time_kinds(tier, funcs, index, enums, res)
         import c15_clock
         r = c15_clock.explore_clock(funcs, index, enums)
         res["functions_executed"].update(r.pop("functions_executed"))
